@@ -39,8 +39,11 @@ pub fn consumed_fields(ctx: &mut Ctx, rng: &mut Rng, idx: &mut u64) {
             fields.swap(i, j);
         }
         let mut h = b"GET /c HTTP/1.1\r\n".to_vec();
-        for (n, v) in &fields {
-            h.extend_from_slice(format!("{n}: {v}\r\n").as_bytes());
+        // (one head in four ends some of its field lines with a bare LF, which the library accepts as a line end)
+        let bare = rng.chance(1, 4);
+        for (k, (n, v)) in fields.iter().enumerate() {
+            let le = if bare && k + 1 < fields.len() && rng.chance(1, 2) { "\n" } else { "\r\n" };
+            h.extend_from_slice(format!("{n}: {v}{le}").as_bytes());
         }
         h.extend_from_slice(b"\r\nTAIL");
         *idx += 1;
